@@ -218,7 +218,7 @@ def trace_unit(run, cases, rng, per_case=12, tag="traces", scripts=True, bufsize
         if ok:
             nacc += len(cj); continue
         if r.error or r.timed_out:
-            run.error("Trace_Scanner failed on %s: %s" % (cp, (r.error or "timeout")[-800:]))
+            run.error("Trace_Scanner failed on %s: %s" % (cp, (r.error or "timeout")[:900]))
             continue
         lines = open(cp).read().splitlines()
         stuck = min(r.depth, len(lines))          # 1-based index of the first unexplained event
